@@ -27,11 +27,16 @@ def inst_text(fam='xoptional'):
         o.append('auto c%d(%s) { return %s; }' % (k[0], body[0], body[1]))
     for nm, op in BIN.items():
         f(('const OI& a, const OI& b', 'a %s b' % op)); f(('const int& a, const OI& b', 'a %s b' % op)); f(('const OI& a, const int& b', 'a %s b' % op))
+    for op in ('<', '<=', '>', '>='):
+        # ordering comparisons on double operands too: with a NaN every ordering comparison is false, so a derived form such as !(b < a) for a <= b shows
+        f(('const OD& a, const OD& b', 'a %s b' % op)); f(('const double& a, const OD& b', 'a %s b' % op)); f(('const OD& a, const double& b', 'a %s b' % op))
     for nm, op in UNA.items():
         if fam == 'xoptional' or op in ('-', '!'):
             f(('const OI& a', '%sa' % op))
     for nm, op in CMP.items():
         f(('const OI& a, const OI& b', 'a %s b' % op)); f(('const int& a, const OI& b', 'a %s b' % op)); f(('const OI& a, const int& b', 'a %s b' % op))
+        # double operands: an ordering comparison with a NaN is false, so a derived form such as !(b < a) for a <= b is visible
+        f(('const OD& a, const OD& b', 'a %s b' % op)); f(('const double& a, const OD& b', 'a %s b' % op)); f(('const OD& a, const double& b', 'a %s b' % op))
         # non-bool flag closures: "a falsy flag means missing"
         f(('const OII& a, const OII& b', 'a %s b' % op)); f(('const OII& a, const OI& b', 'a %s b' % op))
     for nm, op in ASG.items():
